@@ -140,8 +140,8 @@ def run_cases(cases, mode="trace", workdir=None, per_case_timeout=0.5, plain=Fal
 
 
 def run_driver(files, units=None):
-    """runs the extracted model over trace files; returns (counts {unit: [ok, diff]}, diffs [(id, unit, detail)], xs)"""
-    counts, diffs, xs = {}, [], []
+    """runs the extracted model over trace files; returns (counts {unit: [ok, diff]}, diffs [(id, unit, detail)], xs, viols)"""
+    counts, diffs, xs, viols = {}, [], [], []
 
     def one(tf):
         cmd = [build.DRIVER, "check", tf] + ([",".join(units)] if units else [])
@@ -163,7 +163,11 @@ def run_driver(files, units=None):
                         diffs.append((p[1], p[2], p[4] if len(p) > 4 else ""))
                 elif p[0] == "X":
                     xs.append((p[1], " ".join(p[2:])))
-    return counts, diffs, xs
+                elif p[0] == "V" and len(p) >= 4:
+                    c = counts.setdefault(p[2], [0, 0])
+                    c[0] += 1  # the unit ran; the violation is an oracle result, not a model/impl disagreement
+                    viols.append((p[1], p[2], p[3], p[4] if len(p) > 4 else ""))
+    return counts, diffs, xs, viols
 
 
 def cleanup(workdir):
